@@ -302,9 +302,13 @@ func cmdCheck(args []string) int {
 		want = 2
 	}
 	ts := time.Now()
-	dischargeAll(all, prelude, workDir, *timeout, 8, want)
-	dischargeAll(covers, prelude, filepath.Join(workDir, "cover"), 2, 8, 1)
+	dischargeAll(all, prelude, workDir, *timeout, 10, want)
+	mainS := time.Since(ts).Seconds()
+	dischargeAll(covers, prelude, filepath.Join(workDir, "cover"), 1, 10, 1)
 	solveS := time.Since(ts).Seconds()
+	if os.Getenv("VERIF_TIMING") != "" {
+		fmt.Fprintf(os.Stderr, "timing: obligations %.1fs (%d), covers %.1fs (%d), sanity %.1fs\n", mainS, len(all), solveS-mainS, len(covers), sanitySeconds())
+	}
 
 	known, _ := loadKnownFindings()
 	nDis, nProp := 0, 0
